@@ -372,6 +372,13 @@ def c16(rep, env):
         IR.check_outgoing_calls(rep, fb)
         IR.check_clone_bodies(rep, fb)
     per_config(rep, env, f, light=True)
+
+    def g(fb):
+        # determinism: what a kernel writes and keeps is a function of (key, state, input) only —
+        # never of whatever the output buffer held before the call
+        MI.check_stream_involution(rep, fb)
+        only(rep, lambda r: BM.check_inplace(r, fb), pre("alias.no-old-output"))
+    per_config(rep, env, g)
     MI.check_cfg_coverage(rep, env.fb("default"))
     IR.run_controls(rep, "own.")
 
@@ -406,7 +413,7 @@ REGISTRY = {
     "C13": {"run": c13, "level": "proof", "floors": {"cts.no-panic": 72, "cts.gate.exact": 12, "cts.gate.no-side-effect": 12, "b2b": 80, "ivsize": 18, "panic.site-covered": 30}},
     "C14": {"run": c14, "level": "proof", "floors": {"cts.layout": 36, "buf.def": 12, "buf.init": 2, "ofb.one-backend": 1, "ofb.same-function": 2, "alias.wrapper": 8, "keyinit.blanket": 18}},
     "C15": {"run": c15, "level": "proof", "floors": {"dep.kind": 24, "ctr.ks.data-independent": 6}},
-    "C16": {"run": c16, "level": "proof", "floors": {"own.fields-by-value": 50, "own.clone-fieldwise": 46, "own.no-std": 18, "own.no-unsafe": 18, "own.calls-allow-listed": 18, "control.own": 5}},
+    "C16": {"run": c16, "level": "proof", "floors": {"own.fields-by-value": 50, "own.clone-fieldwise": 46, "own.no-std": 18, "own.no-unsafe": 18, "own.calls-allow-listed": 18, "control.own": 5, "inv.stream": 5, "alias.no-old-output": 15}},
     "C17": {"run": c17, "level": "other", "floors": {"leak.debug-opaque": 54, "leak.alias-debug-opaque": 16, "leak.zeroize-field": 20, "control.leak": 5}},
 }
 for _k, _v in REGISTRY.items():
